@@ -373,7 +373,7 @@ def main(tier):
     for b in bad:
         run.inconclusive_because(f"positive control did not fire: {b}")
     plan = PLAN[tier]
-    run_shards(run, "c06", plan["shards"], timeout_s=1500 if tier == "quick" else 6 * 3600)
+    run_shards(run, "c06", plan["shards"], timeout_s=3600 if tier == "quick" else 6 * 3600)
     if run.counters.get("three_way_agreements", 0) < 1000:
         run.inconclusive_because("too few programs were compared three ways")
     run.assumptions += [
